@@ -298,9 +298,10 @@ class Evaluator:
             raise SpecError("bad index type %r" % (idx.ty,))
         v = base.v
         if isinstance(v, SliceV):
-            if v.obj is None:
-                raise SpecError("index of nil slice")
             et = self.p.under(base.ty[1])["elem"]
+            if v.obj is None:
+                # a nil slice has no elements: the value is unconstrained (only reachable under an empty range)
+                return TV(self.e.fresh(et, "nilslice.elem"), self.ty_of(et), None)
             lv = Ptr(v.obj, v.path + (idx_add(v.off, i),))
             return TV(self.e.load(cur, lv), self.ty_of(et), lv)
         if isinstance(v, (ArrV, ZArr)):
